@@ -801,7 +801,6 @@ static void bufr_free_datasubset( DataSubset *subset )
    char  *list;
 
    if (subset == NULL) return;
-   if (subset->data == NULL) return;
 
    list = subset->data;
    count = arr_count( list );
@@ -819,7 +818,7 @@ static void bufr_free_datasubset( DataSubset *subset )
          bufr_free_descriptor( bd );
          }
       }
-   arr_free( &list );
+   arr_free( &list ); /* a subset that was never filled has no list: the subset itself still goes */
    subset->data = NULL;
 
    if (subset->dpbm)
